@@ -284,6 +284,12 @@ def check(run):
         stats["model"] = model_correspondence(run, trees[: 3000 if run.tier == "quick" else 20000], wits)
     except Broken as b:
         broken.append(b)
+    # ---- 2b. whole programs: parse, print every item/type/pattern/expression form from the AST with other layout
+    #          and only the necessary parentheses, parse again: the same AST
+    try:
+        stats["programs"] = program_round_trip(run, rng, wits)
+    except Broken as b:
+        broken.append(b)
     # ---- 3. literals
     lit_stats = literals(run, rng, wits)
     stats["literals"] = lit_stats
@@ -298,7 +304,7 @@ def check(run):
     run.cov["rule"] = (
         "%d trees: all operator pairs in both shapes, all (quick: all x all x 6) operator triples in the five shapes, every prefix operator against every binary operator, call and field access, plus %d random trees "
         "(atoms, paths, literals, prefix, binary, calls with 0-2 arguments, fields, tuples) rendered with only the necessary parentheses under the documented binding powers and random trivia (spaces, tabs, line breaks, comments); "
-        "the real parser+lowering must return exactly the tree. Literals: strings over quotes/backslashes/slashes/control/Unicode characters with every accepted escape spelling, multi-line strings, integer and float spellings; "
+        "the real parser+lowering must return exactly the tree. Whole programs (corpus files of all packages, generated programs with closures, generics, traits, multi-package projects): the AST of every accepted source is printed back with other layout and minimal parentheses (all item, type, pattern and expression forms) and must parse to the same AST. Literals: strings over quotes/backslashes/slashes/control/Unicode characters with every accepted escape spelling, multi-line strings, integer and float spellings; "
         "the AST value and (ASCII) the text printed by the compiled program under Sem/GoSem.v must be the characters written. distinct_nontrivial = trees that round-trip" % (n_ex, n_rand)
     )
     run.cov["correspondence"] = stats
@@ -309,6 +315,55 @@ def check(run):
             run.violation(w)
     elif broken:
         run.violation({"broken": [b.what for b in broken], "detail": [b.detail for b in broken]}, no_input=True)
+
+
+def program_round_trip(run, rng, wits):
+    import glob
+    import random as _random
+
+    import astprint
+    import callgen
+    import genericgen
+    import genprog
+
+    q = run.tier == "quick"
+    srcs = []
+    for pat_ in ("crates/compiler/src/tests/pipeline/*/main.gom", "crates/compiler/src/tests/package/*/*.gom", "crates/compiler/src/tests/package/*/*/*.gom"):
+        srcs += [open(p, encoding="utf-8").read() for p in sorted(glob.glob(os.path.join(vlib.REPO, pat_)))]
+    n_corpus = len(srcs)
+    srcs += [genprog.G(rng, fail_rate=0.02).program(depth=rng.choice([2, 3])) for _ in range(60 if q else 1500)]
+    srcs += [genprog.closure_program(run.sub_rng("c11-cl")) for _ in range(20 if q else 400)]
+    srcs += [genericgen.Gen(rng).program(n_stmts=4, depth=2)[0] for _ in range(15 if q else 300)]
+    for _ in range(5 if q else 80):
+        srcs += list(callgen.Gen(rng).project(n_calls=5)[0].values())
+    r1 = vlib.run_harness("parse-ast", [{"text": s} for s in srcs], shards=vlib.NCPU)
+    printed, keep = [], []
+    st = {"sources": len(srcs), "corpus_files": n_corpus, "round_trip": 0, "with_attributes_skipped": 0, "first_parse_rejected": 0}
+    for i, (s, r) in enumerate(zip(srcs, r1)):
+        if "panic" in r:
+            wits.append({"kind": "parser panic", "text": s})
+            continue
+        if not r.get("ok"):
+            st["first_parse_rejected"] += 1
+            continue
+        t = rustdbg.parse(r["ast_dbg"])
+        try:
+            printed.append(astprint.P(_random.Random(rng.random())).file(t))
+            keep.append((s, t))
+        except astprint.Unprintable as e:
+            if str(e) == "attributes":
+                st["with_attributes_skipped"] += 1
+            else:
+                wits.append({"kind": "the AST has a form the printer does not know: %s" % e, "text": s})
+    r2 = vlib.run_harness("parse-ast", [{"text": s} for s in printed], shards=vlib.NCPU)
+    for (s, t), ptxt, r in zip(keep, printed, r2):
+        if not r.get("ok"):
+            wits.append({"kind": "a program printed from its own AST (other layout, only the necessary parentheses) is rejected", "text": ptxt, "original": s, "impl": {k: v for k, v in r.items() if k != "ast_dbg"}})
+        elif astprint.canon(rustdbg.parse(r["ast_dbg"])) != astprint.canon(t):
+            wits.append({"kind": "a program printed from its own AST parses to another AST", "text": ptxt, "original": s})
+        else:
+            st["round_trip"] += 1
+    return st
 
 
 # ---- Coq model correspondence ---------------------------------------------------------------------
